@@ -20,6 +20,11 @@ func tomlMarshalStream(vs []any) ([]byte, error) {
 			buf.Write([]byte("---\n"))
 		}
 
+		if v == nil {
+			// Like the YAML writer: an empty document is written as nothing
+			continue
+		}
+
 		err := enc.Encode(v)
 		if err != nil {
 			return nil, err
